@@ -10,3 +10,10 @@ open MtailVerif.C03
 #print axioms lexer_source_shape
 #print axioms in_regex_discipline
 #print axioms compile_source_shape
+#print axioms MtailVerif.C03.symbols_skeletons
+#print axioms MtailVerif.C03.lex_skeletons
+#print axioms MtailVerif.C03.codegenBefore_skeletons
+#print axioms MtailVerif.C03.codegenAfter_skeletons
+#print axioms MtailVerif.C03.checkerBefore_skeletons
+#print axioms MtailVerif.C03.checkerAfter_skeletons
+#print axioms MtailVerif.C03.patternEval_skeletons
